@@ -80,6 +80,7 @@ func Package(root string, cfg PkgConfig) error {
 	for _, e := range cfg.Exclude {
 		excl[e] = true
 	}
+	pi := &pkgInit{funcs: map[string]string{}}
 	for i, f := range files {
 		if excl[names[i]] {
 			continue
@@ -91,7 +92,7 @@ func Package(root string, cfg PkgConfig) error {
 		for k, v := range cfg.FileShims[names[i]] {
 			shims[k] = v
 		}
-		r := &rw{fset: fset, info: info, pkg: pkg, file: f, relDir: cfg.Dir, name: names[i], mut: mut, shims: shims, instr: !cfg.NoInstr}
+		r := &rw{fset: fset, info: info, pkg: pkg, file: f, relDir: cfg.Dir, name: names[i], mut: mut, shims: shims, instr: !cfg.NoInstr, pi: pi}
 		src, err := r.rewriteFile()
 		if err != nil {
 			return fmt.Errorf("rewrite %s/%s: %v", cfg.Dir, names[i], err)
@@ -100,7 +101,35 @@ func Package(root string, cfg PkgConfig) error {
 			return err
 		}
 	}
-	return nil
+	// the package's reset function: zero the variables without initialiser,
+	// then re-run the initialisers in the order the compiler would, then the
+	// init functions
+	var calls []string
+	calls = append(calls, pi.zero...)
+	for _, in := range info.InitOrder {
+		for _, v := range in.Lhs {
+			if fn, ok := pi.funcs[v.Name()]; ok {
+				calls = append(calls, fn)
+				break
+			}
+		}
+	}
+	calls = append(calls, pi.inits...)
+	var b bytes.Buffer
+	fmt.Fprintf(&b, "package %s\n\nimport %s %q\n\nfunc init() {\n\t%s.RegisterReset(%q, func() {\n", pkg.Name(), rtName, rtPath, rtName, bp.ImportPath)
+	for _, c := range calls {
+		fmt.Fprintf(&b, "\t\t%s()\n", c)
+	}
+	fmt.Fprintf(&b, "\t})\n}\n")
+	return os.WriteFile(filepath.Join(dir, "zz_simrt_reset.go"), b.Bytes(), 0644)
+}
+
+// pkgInit collects, over the files of a package, the generated functions that
+// re-initialise its package-level variables.
+type pkgInit struct {
+	funcs map[string]string // variable name -> function that re-runs its initialiser
+	zero  []string          // functions zeroing variables declared without initialiser
+	inits []string          // renamed init functions
 }
 
 // mutatedGlobals finds package-level variables that are ever assigned,
@@ -192,6 +221,7 @@ type rw struct {
 	// locals that may be shared: address taken, or captured by a closure
 	sharedLocal map[types.Object]bool
 	params      map[types.Object]bool
+	pi          *pkgInit
 }
 
 type ectx int
@@ -347,6 +377,7 @@ func (r *rw) rewriteFile() ([]byte, error) {
 	for _, d := range f.Decls {
 		r.decl(d)
 	}
+	f.Decls = append(f.Decls, r.reinitDecls()...)
 	// add the runtime import and keep it used
 	imp := &ast.GenDecl{Tok: token.IMPORT, Specs: []ast.Spec{&ast.ImportSpec{Name: ast.NewIdent(rtName), Path: &ast.BasicLit{Kind: token.STRING, Value: strconv.Quote(rtPath)}}}}
 	keep := &ast.GenDecl{Tok: token.VAR, Specs: []ast.Spec{&ast.ValueSpec{Names: []*ast.Ident{ast.NewIdent("_")}, Values: []ast.Expr{rt("Keep")}}}}
@@ -367,6 +398,90 @@ func (r *rw) rewriteFile() ([]byte, error) {
 // stripPos: printing with a fresh FileSet makes the printer ignore the stale
 // positions of the original nodes (which no longer describe the tree).
 func stripPos(f *ast.File) *ast.File { return f }
+
+// reinitDecls generates, for every package-level variable of this file, a
+// function that assigns it its initial value again, and wraps init functions
+// so that they can be re-run.
+func (r *rw) reinitDecls() []ast.Decl {
+	var out []ast.Decl
+	if r.pi == nil {
+		return nil
+	}
+	mk := func(name string, body ...ast.Stmt) {
+		out = append(out, &ast.FuncDecl{Name: ast.NewIdent(name), Type: &ast.FuncType{Params: &ast.FieldList{}}, Body: &ast.BlockStmt{List: body}})
+	}
+	base := strings.NewReplacer(".", "_", "-", "_").Replace(strings.TrimSuffix(r.name, ".go"))
+	nInit := 0
+	for _, d := range r.file.Decls {
+		switch d := d.(type) {
+		case *ast.GenDecl:
+			if d.Tok != token.VAR {
+				continue
+			}
+			for _, sp := range d.Specs {
+				vs := sp.(*ast.ValueSpec)
+				switch {
+				case len(vs.Values) == 0:
+					for _, n := range vs.Names {
+						if n.Name == "_" {
+							continue
+						}
+						fn := "__simrtInit_" + n.Name
+						z := ast.NewIdent("__z")
+						mk(fn,
+							&ast.DeclStmt{Decl: &ast.GenDecl{Tok: token.VAR, Specs: []ast.Spec{&ast.ValueSpec{Names: []*ast.Ident{z}, Type: vs.Type}}}},
+							&ast.AssignStmt{Lhs: []ast.Expr{ast.NewIdent(n.Name)}, Tok: token.ASSIGN, Rhs: []ast.Expr{z}})
+						r.pi.zero = append(r.pi.zero, fn)
+					}
+				case len(vs.Values) == len(vs.Names):
+					for i, n := range vs.Names {
+						if n.Name == "_" {
+							continue
+						}
+						fn := "__simrtInit_" + n.Name
+						rhs := vs.Values[i]
+						if vs.Type != nil {
+							rhs = call(&ast.ParenExpr{X: vs.Type}, rhs) // keep the declared type (untyped constants, interfaces)
+							if _, isArr := vs.Type.(*ast.ArrayType); isArr {
+								rhs = vs.Values[i]
+							}
+						}
+						mk(fn, &ast.AssignStmt{Lhs: []ast.Expr{ast.NewIdent(n.Name)}, Tok: token.ASSIGN, Rhs: []ast.Expr{rhs}})
+						r.pi.funcs[n.Name] = fn
+					}
+				default: // var a, b = f()
+					var lhs []ast.Expr
+					first := ""
+					for _, n := range vs.Names {
+						lhs = append(lhs, ast.NewIdent(n.Name))
+						if first == "" && n.Name != "_" {
+							first = n.Name
+						}
+					}
+					if first == "" {
+						continue
+					}
+					fn := "__simrtInit_" + first
+					mk(fn, &ast.AssignStmt{Lhs: lhs, Tok: token.ASSIGN, Rhs: []ast.Expr{vs.Values[0]}})
+					for _, n := range vs.Names {
+						if n.Name != "_" {
+							r.pi.funcs[n.Name] = fn
+						}
+					}
+				}
+			}
+		case *ast.FuncDecl:
+			if d.Recv == nil && d.Name.Name == "init" {
+				nInit++
+				fn := fmt.Sprintf("__simrtOrigInit_%s_%d", base, nInit)
+				d.Name = ast.NewIdent(fn)
+				mk("init", &ast.ExprStmt{X: call(ast.NewIdent(fn))})
+				r.pi.inits = append(r.pi.inits, fn)
+			}
+		}
+	}
+	return out
+}
 
 func (r *rw) decl(d ast.Decl) {
 	switch d := d.(type) {
